@@ -160,11 +160,22 @@ def activeCols (sc : Sidecar) (header : List Str) : List Col := sortCols (fileCo
 def substPound (x : Str) (template : Str) : Str :=
   template.flatMap fun c => if c == '#' then x else [c]
 
-/-- the transformers; `_value_handler` with `fixes/C06_value_empty_cell.diff` (an empty cell is n/a) -/
+/-- "is this cell missing": the test of `_value_handler`, `x == "n/a" or x == ""` (equality with the whole
+cell — not a substring or case-insensitive test) -/
+def isMissing (x : Str) : Bool := x == NA || x == []
+
+/-- `_value_handler(value_str, x)` -/
+def valueHandler (t x : Str) : Str := if isMissing x then NA else substPound x t
+
+/-- `_category_handler(category_values, x)`: `category_values.get(x, "")` — no missing-cell test at all,
+an `n/a` or empty cell is looked up like any other key -/
+def categoryHandler (es : List (Str × Str)) (x : Str) : Str := (es.lookup x).getD []
+
+/-- the transformers of `get_transformers` -/
 def applyTr : Tr → Str → Str
   | .ident, x => x
-  | .value t, x => if x = NA ∨ x = [] then NA else substPound x t
-  | .cat es, x => (es.lookup x).getD []
+  | .value t, x => valueHandler t x
+  | .cat es, x => categoryHandler es x
 
 /-- `_value_handler` of the unchanged code -/
 def valueHandlerOld (t x : Str) : Str := if x = NA then NA else substPound x t
